@@ -14,6 +14,10 @@ type Font struct {
 
 	// ToUnicode CMap for character code to Unicode mapping
 	ToUnicodeCMap *CMap
+
+	// differences holds the code -> Unicode overrides from the /Differences
+	// array of the font's encoding dictionary; they apply on top of Encoding.
+	differences map[byte]rune
 }
 
 // NewFont creates a new font
@@ -90,6 +94,9 @@ func (f *Font) DecodeString(data []byte) string {
 	// Priority 3: Use font's Encoding property
 	if f.Encoding != "" {
 		enc := GetEncoding(f.Encoding)
+		if len(f.differences) > 0 {
+			enc = NewCustomEncoding(enc, f.differences)
+		}
 		decoded = enc.DecodeString(data)
 		return NormalizeUnicode(decoded)
 	}
